@@ -12,8 +12,8 @@ def Cmd.labels : Cmd → Bytes → KLabel → Prop
   | .rollback keys T, k, lab => lab = .same ∨ (k ∈ keys ∧ (lab = .rollback T ∨ lab = .marker T))
   | .cleanup k0 T _, k, lab => lab = .same ∨ (k = k0 ∧ (lab = .rollback T ∨ lab = .marker T))
   | .status p T _ _ _ _, k, lab =>
-      lab = .same ∨ (k = p ∧ (lab = .unlock ∨ lab = .rollback T ∨ lab = .marker T ∨ lab = .locks T))
-  | .heartbeat k0 T _, k, lab => lab = .same ∨ (k = k0 ∧ lab = .locks T)
+      lab = .same ∨ (k = p ∧ (lab = .unlock ∨ lab = .rollback T ∨ lab = .marker T ∨ lab = .touch T))
+  | .heartbeat k0 T _, k, lab => lab = .same ∨ (k = k0 ∧ lab = .touch T)
   | .resolve a b T C, k, lab =>
       lab = .same ∨ (inRange a b k = true ∧ ((0 < C ∧ lab = .commit T C) ∨ (C = 0 ∧ lab = .rollback T)))
   | .bresolve a b infos, k, lab =>
@@ -332,9 +332,7 @@ theorem KS_checkTxnStatus (s s' : Store) (p : Bytes) (T caller cur : TS) (rb rp 
         · split at h
           · injection h with h1 _; subst h1
             exact SRel_applyKeyed _ s p _ _ hs.1 (by intro a ha; simp at ha; subst ha; rfl) hL
-              ⟨.locks T, Or.inr ⟨rfl, Or.inr (Or.inr (Or.inr rfl))⟩,
-                KStep.locks p T _ (by intro a ha; simp at ha; exact ⟨_, ha, hT⟩)
-                  (by rw [← hT]; exact (hs.2 p).lockFresh l hlk)⟩
+              ⟨.touch T, Or.inr ⟨rfl, Or.inr (Or.inr (Or.inr rfl))⟩, KStep.touch p T l _ hlk hT hT rfl⟩
           · injection h with h1 _; subst h1; exact hsame
         · injection h with h1 _; subst h1; exact hsame
   | none =>
@@ -373,9 +371,7 @@ theorem KS_heartBeat (s s' : Store) (k : Bytes) (T adv : TS) (r : Except KErr Na
     · split at h
       · injection h with h1 _; subst h1
         exact SRel_applyKeyed _ s k _ _ hs.1 (by intro a ha; simp at ha; subst ha; rfl) hL
-          ⟨.locks T, Or.inr ⟨rfl, rfl⟩,
-            KStep.locks k T _ (by intro a ha; simp at ha; exact ⟨_, ha, hT⟩)
-              (by rw [← hT]; exact (hs.2 k).lockFresh l hlk)⟩
+          ⟨.touch T, Or.inr ⟨rfl, rfl⟩, KStep.touch k T l _ hlk hT hT rfl⟩
       · injection h with h1 _; subst h1; exact hsame
 
 /-! ### GC, delete range -/
